@@ -6,6 +6,7 @@ import os
 import subprocess
 
 import engine
+from gen import up1 as gen_up1
 
 HERE = os.path.dirname(os.path.abspath(__file__))
 VERIF = os.path.dirname(HERE)
@@ -21,7 +22,7 @@ TRUSTED_BASE = [
     "(differential) check run here against /repo's working tree",
     "glue: harness/*.py (generators, canonical encoders of implementation objects), ocaml/sx.ml, ocaml/driver.ml",
     "fastcore-1.7 compatibility shim harness/compat/fastcore_self.py (DESIGN.md 1.1)",
-    "CPython semantics of list/dict/set/sorted/str on 7-bit text; attrs-generated methods; re, csv, "
+    "CPython semantics of list/dict/set/sorted/str on Latin-1 text; attrs-generated methods; re, csv, "
     "string.Template, PyYAML, typer; networkx (transliterated or abstracted as stated in DESIGN.md section 5)",
 ]
 
@@ -46,7 +47,14 @@ def icase_scope(tier):
     strs = [""]
     for k in range(1, n + 1):
         strs += ["".join(t) for t in itertools.product(alph, repeat=k)]
-    return [{"a": a, "b": b} for a in strs for b in strs]
+    cases = [{"a": a, "b": b} for a in strs for b in strs]
+    # every Latin-1 code point, alone and next to its case partner and to its neighbours in code-point order
+    for c in range(256):
+        ch = chr(c)
+        for other in {ch, gen_up1(ch), ch.lower(), chr((c + 1) % 256), chr((c + 32) % 256), "a" + ch, ""}:
+            cases.append({"a": ch, "b": other})
+            cases.append({"a": other, "b": ch})
+    return cases
 
 
 def bag_scope(tier):
